@@ -41,8 +41,8 @@ theorem val_lit3 {W : Nat} {bs pad : List Nat} {s : PState} {f : Frame} {rest : 
         (by simp only [hat.pos]) ⟨by omega, by omega⟩ ⟨by simp only; omega, rfl⟩ (fun buf' _ => hv buf') ?_)
       rw [hvs]; rfl
     · rw [scalar_full hlt n] at hvs
-      refine Or.inr ⟨ErrT.now (s' := { s with pos := s.pos + 3, err := kParseErrorInvalidChar }) (by rw [hvs]; rfl)
-        (hat.inv.errFull rfl rfl rfl rfl) (by omega), ?_⟩
+      refine Or.inr (Or.inl ⟨ErrT.now (s' := { s with pos := s.pos + 3, err := kParseErrorInvalidChar }) (by rw [hvs]; rfl)
+        (hat.inv.errFull rfl rfl rfl rfl) (by omega), ?_⟩)
       unfold CapV; omega
   · rw [if_neg hm]
     rw [if_neg (fun h => hm (hagree.mp h))] at hvs
@@ -99,8 +99,8 @@ theorem val_false {W : Nat} {bs pad : List Nat} {s : PState} {f : Frame} {rest :
         (by simp only [hat.pos]) ⟨by omega, by omega⟩ ⟨by simp only; omega, rfl⟩ (fun buf' _ => rfl) ?_)
       rw [hvs]; rfl
     · rw [scalar_full hlt (.bool false)] at hvs
-      refine Or.inr ⟨ErrT.now (s' := { s with pos := s.pos + 4, err := kParseErrorInvalidChar }) (by rw [hvs]; rfl)
-        (hat.inv.errFull rfl rfl rfl rfl) (by omega), ?_⟩
+      refine Or.inr (Or.inl ⟨ErrT.now (s' := { s with pos := s.pos + 4, err := kParseErrorInvalidChar }) (by rw [hvs]; rfl)
+        (hat.inv.errFull rfl rfl rfl rfl) (by omega), ?_⟩)
       unfold CapV; omega
   · rw [if_neg hm]
     rw [if_neg (fun h => hm (hspec.mpr (hagree.mp h)))] at hvs
@@ -115,8 +115,105 @@ theorem isNumStart_ne {c : Nat} (h : isNumStart c = true) :
   simp only [Bool.or_eq_true, Bool.and_eq_true, decide_eq_true_eq, beq_iff_eq] at h
   omega
 
+/-- `parseNumber` at a value position: the shape of the `switch` arm -/
+theorem vs_num_eq {W : Nat} {bs pad : List Nat} {s : PState} {f : Frame} {rest : List Frame} {p c : Nat}
+    (hat : At bs pad .val s (f :: rest) p c) (hc : isNumStart c = true) :
+    valueSwitch W s c (contOf f) =
+      match (match Sonic.Model.Number.parseNumber s.buf bs.length p with
+        | .ok v next _ =>
+          match s.sax.scalar (numNode v) with
+          | .error e => .error e
+          | .ok (sax, true) => .ok { s with pos := next, sax := sax }
+          | .ok (sax, false) => .ok { s with pos := next, sax := sax, err := kParseErrorInvalidChar }
+        | .err code p =>
+          if code = Sonic.Model.Number.errInfinity then
+            match s.sax.scalar (.dbl Sonic.Model.Number.infBits) with
+            | .error e => .error e
+            | .ok (sax, true) => .ok { s with pos := p, sax := sax, err := code }
+            | .ok (sax, false) => .ok { s with pos := p, sax := sax, err := kParseErrorInvalidChar }
+          else if code = kParseErrorInvalidChar then .ok { s with pos := p, err := code }
+          else .error .number : Except Fault PState) with
+      | .error e => .error e
+      | .ok s => if s.err ≠ kErrorNone then .ok (s, none) else afterScalar s (contOf f) := by
+  obtain ⟨h1, h2, _⟩ := isNumStart_ne hc
+  have hvs : valueSwitch W s c (contOf f) =
+      match parseNum s with
+      | .error e => .error e
+      | .ok s => if s.err ≠ kErrorNone then .ok (s, none) else afterScalar s (contOf f) := by
+    unfold valueSwitch
+    rw [if_neg h1, if_neg h2, if_pos hc]
+    rfl
+  unfold parseNum at hvs
+  have hcall : Sonic.Model.Number.parseNumber s.buf s.len (s.pos - 1) =
+      Sonic.Model.Number.parseNumber s.buf bs.length p := by rw [hat.pos_sub, hat.inv.b.len]
+  rw [hcall] at hvs
+  exact hvs
+
+/-- a number at a doomed position: whatever `parseNumber` answers, `parseImpl` fails — at once, or at the next
+    token (`.` or a digit, which is neither `,` nor a closing bracket) -/
+theorem val_num_doomed {W : Nat} {bs pad : List Nat} {s : PState} {f : Frame} {rest : List Frame} {p c : Nat}
+    (hat : At bs pad .val s (f :: rest) p c) (hc : isNumStart c = true) {tlen : Nat}
+    (hpos : 0 < tlen) (hd : Doomed bs (p + tlen)) {r : NumOut} (hout : NumDoomedOut p tlen r)
+    (hr : numOut (Sonic.Model.Number.parseNumber s.buf bs.length p) = r) :
+    ErrT W bs (valueSwitch W s c (contOf f)) (p + 1) := by
+  have hvs := vs_num_eq (W := W) hat hc
+  have hdl := hd.lt
+  obtain ⟨d, hdd, hsp, hd1, hd2, hd3, hd4⟩ := hd.notWs
+  cases hpn : Sonic.Model.Number.parseNumber s.buf bs.length p with
+  | ok v' next' path =>
+    rw [hpn] at hvs hr
+    simp only at hvs
+    simp only [numOut] at hr
+    subst hr
+    have hnx : next' = p + tlen := hout
+    subst hnx
+    by_cases hlt : s.sax.np < s.sax.cap
+    · rw [scalar_ok hat.inv.st.1 hlt (numNode v')] at hvs
+      simp only [hat.inv.err, kErrorNone, ne_eq, not_true_eq_false, if_false] at hvs
+      have hnv : (numNode v').allocs = 0 := by cases v' <;> rfl
+      have hM : MInv bs pad .cont { s with pos := p + tlen, sax := pushed s.sax (numNode v') }
+          (pushItem (numNode v') (f :: rest)) :=
+        hat.inv.push_val hlt _ hnv (hat.inv.b.congr rfl rfl rfl (by simp only [hat.pos]; omega)) hat.inv.err rfl rfl
+      obtain ⟨c', s', ha, hat', _, _⟩ := afterScalar_ok hM (by simp only; omega) (contOf f)
+      simp only at hat'
+      rw [skipWs_fix hdd hsp] at hat'
+      have hcd : c' = d := by
+        have := hat'.tok
+        rw [B0_lt hdl, hdd] at this
+        injection this with this
+        exact this.symm
+      subst hcd
+      obtain ⟨s3, hst, hfin⟩ := cont_err_final (W := W) (c := c') hat'.inv hd1 hd2 hd3
+      refine ⟨1, s3, ⟨_, ?_, Reaches.step hst (Reaches.refl _)⟩, hfin, by omega⟩
+      rw [hvs]
+      simp only [pushed, hat.inv.err] at ha
+      exact ha
+    · rw [scalar_full hlt (numNode v')] at hvs
+      exact ErrT.now (s' := { s with pos := p + tlen, err := kParseErrorInvalidChar })
+        (by rw [hvs]; rfl) (hat.inv.errFull rfl rfl rfl rfl) (by omega)
+  | err code pos =>
+    rw [hpn] at hvs hr
+    simp only at hvs
+    simp only [numOut] at hr
+    subst hr
+    rcases hout with hcd | hcd
+    · subst hcd
+      simp only [if_true] at hvs
+      by_cases hlt : s.sax.np < s.sax.cap
+      · rw [scalar_ok hat.inv.st.1 hlt] at hvs
+        exact ErrT.now (s' := { s with pos := pos, sax := pushed s.sax (.dbl Sonic.Model.Number.infBits),
+                                        err := Sonic.Model.Number.errInfinity })
+          (by rw [hvs]; rfl)
+          (hat.inv.errPushed hlt (.dbl Sonic.Model.Number.infBits) rfl (Or.inr (Or.inl rfl)) rfl rfl rfl) (by omega)
+      · rw [scalar_full hlt] at hvs
+        exact ErrT.now (s' := { s with pos := pos, err := kParseErrorInvalidChar })
+          (by rw [hvs]; rfl) (hat.inv.errFull rfl rfl rfl rfl) (by omega)
+    · subst hcd
+      exact ErrT.now (s' := { s with pos := pos, err := 2 })
+        (by rw [hvs]; rfl) (hat.inv.errFull rfl rfl rfl rfl) (by omega)
+
 theorem val_num {W : Nat} {bs pad : List Nat} {s : PState} {f : Frame} {rest : List Frame} {p c : Nat}
-    (ctx : Ctx W bs pad) (hnum : NumberCorrectOn bs) (hat : At bs pad .val s (f :: rest) p c)
+    (ctx : Ctx W bs pad) (hnum : NumberOK bs) (hat : At bs pad .val s (f :: rest) p c)
     (hc : isNumStart c = true) :
     ValGoal W bs pad s f rest p c
       (match Number.scanNumber bs p with
@@ -125,19 +222,18 @@ theorem val_num {W : Nat} {bs pad : List Nat} {s : PState} {f : Frame} {rest : L
        | .malformed => .error .malformed) := by
   obtain ⟨h1, h2, h3, h4, h5, h6, h7⟩ := isNumStart_ne hc
   obtain ⟨hp, hbp⟩ := hat.lt_of_ne h3
-  have hvs : valueSwitch W s c (contOf f) =
-      match parseNum s with
-      | .error e => .error e
-      | .ok s => if s.err ≠ kErrorNone then .ok (s, none) else afterScalar s (contOf f) := by
-    unfold valueSwitch
-    rw [if_neg h1, if_neg h2, if_pos hc]
-    rfl
-  obtain ⟨r, hagr, hr⟩ := hnum p c hp hbp hc
+  have hvs := vs_num_eq (W := W) hat hc
+  obtain ⟨r, hcase, hr⟩ := hnum p c hp hbp hc
   have hr' := hr pad s.buf ctx.hlen ctx.hpad ⟨hat.inv.b.blen, hat.suf⟩
-  unfold parseNum at hvs
-  have hcall : Sonic.Model.Number.parseNumber s.buf s.len (s.pos - 1) =
-      Sonic.Model.Number.parseNumber s.buf bs.length p := by rw [hat.pos_sub, hat.inv.b.len]
-  rw [hcall] at hvs
+  rcases hcase with hagr | ⟨t, ht, htpos, hdoom, hout⟩
+  case inr =>
+    have hE := val_num_doomed (W := W) hat hc htpos hdoom hout hr'
+    unfold Number.scanNumber
+    rw [ht]
+    simp only
+    cases t.value with
+    | some v => exact Or.inr (Or.inr ⟨hE, hdoom⟩)
+    | none => exact hE
   cases hpn : Sonic.Model.Number.parseNumber s.buf bs.length p with
   | ok v' next' path =>
     rw [hpn] at hvs hr'
@@ -160,8 +256,8 @@ theorem val_num {W : Nat} {bs pad : List Nat} {s : PState} {f : Frame} {rest : L
           (fun buf' _ => by cases v <;> rfl) ?_)
         rw [hvs]; simp only [hat.inv.err, pushed]
       · rw [scalar_full hlt (numNode v)] at hvs
-        refine Or.inr ⟨ErrT.now (s' := { s with pos := next, err := kParseErrorInvalidChar })
-          (by rw [hvs]; rfl) (hat.inv.errFull rfl rfl rfl rfl) (by omega), ?_⟩
+        refine Or.inr (Or.inl ⟨ErrT.now (s' := { s with pos := next, err := kParseErrorInvalidChar })
+          (by rw [hvs]; rfl) (hat.inv.errFull rfl rfl rfl rfl) (by omega), ?_⟩)
         unfold CapV; omega
     | infinity next => rw [hsc] at hagr; exact hagr.elim
     | malformed => rw [hsc] at hagr; exact hagr.elim
@@ -351,8 +447,8 @@ theorem val_str {W : Nat} {bs pad : List Nat} {s : PState} {f : Frame} {rest : L
         rfl
     · rw [scalar_full hlt] at hps
       rw [hps] at hvs
-      refine Or.inr ⟨ErrT.now (s' := { s with buf := b', pos := next, err := kParseErrorInvalidChar })
-        (by rw [hvs]; rfl) (hat.inv.errFull rfl rfl hlen rfl) (by omega), ?_⟩
+      refine Or.inr (Or.inl ⟨ErrT.now (s' := { s with buf := b', pos := next, err := kParseErrorInvalidChar })
+        (by rw [hvs]; rfl) (hat.inv.errFull rfl rfl hlen rfl) (by omega), ?_⟩)
       unfold CapV; have := hat.pos; omega
   · rw [hdec]
     simp only [ValGoal]
